@@ -504,15 +504,41 @@ def rates_kind(eng, name):
 
 
 TRUE_INV = lambda c, L: z3.BoolVal(True)
+
+
+# WHAT each loop runs over (checked at an arbitrary position k): all parameters / the parameters after the
+# prepended ones / their annotations / their names with their position
+def over_params(shifted):
+    def over(c, sq, k, elem):
+        skip = c.skip_args if shifted else z3.IntVal(0)
+        ok = elem.k == 'ref' and elem.cls == 'Param'
+        return sq.extra['len'] == NPAR - skip, (elem.extra['index'] == skip + k) if ok else z3.BoolVal(False)
+    return over
+
+
+def over_annotations(c, sq, k, elem):
+    ann = P_ANNOT(c.skip_args + k)
+    if elem.k != 'any':
+        return z3.BoolVal(False), z3.BoolVal(False)
+    return (sq.extra['len'] == NPAR - c.skip_args,
+            z3.If(IS_EMPTY(ann), VV.tag_of(elem.z) == TAGS['none'], elem.z == ann))
+
+
+def over_names(c, sq, k, elem):
+    ok = elem.k == 'tuple' and len(elem.items) == 2 and elem.items[0].k == 'int' and elem.items[1].k == 'any'
+    if not ok:
+        return z3.BoolVal(False), z3.BoolVal(False)
+    return (sq.extra['len'] == NPAR - c.skip_args,
+            z3.And(elem.items[0].z == k, elem.items[1].z == P_NAME(c.skip_args + k)))
 contract(FS, 'SynthDef._args_to_controls', props=('C04',),
          params={'self': 'self', 'func': 'obj', 'rates': rates_kind, 'skip_args': 'int'},
          requires=lambda c: z3.And(c.skip_args >= 0, c.skip_args <= NPAR),
          ensures=[('metadata-defaults-asked-with-aligned-names-and-values', a2c_post)],
          raises={'ValueError': None},
-         loops={0: _ALoop(inv=TRUE_INV, kinds={'p': (lambda eng, n: V('obj', oid='havoc'))}),
-                1: _ALoop(inv=TRUE_INV, kinds={'p': (lambda eng, n: V('obj', oid='havoc'))}),
-                2: _ALoop(inv=TRUE_INV, kinds={'a': 'any'}),
-                3: _ALoop(inv=a2c_main, kinds={'i': 'int', 'name': 'any', 'value': 'any', 'annot': 'any',
+         loops={0: _ALoop(inv=TRUE_INV, over=over_params(False), kinds={'p': (lambda eng, n: V('obj', oid='havoc'))}),
+                1: _ALoop(inv=TRUE_INV, over=over_params(True), kinds={'p': (lambda eng, n: V('obj', oid='havoc'))}),
+                2: _ALoop(inv=TRUE_INV, over=over_annotations, kinds={'a': 'any'}),
+                3: _ALoop(inv=a2c_main, over=over_names, kinds={'i': 'int', 'name': 'any', 'value': 'any', 'annot': 'any',
                                                 'lag': 'any', 'overridden': 'bool'})},
          fields={'SynthDef': SD, 'Param': {}},
          hooks={'getattr': a2c_getattr, 'compare': a2c_compare, 'builtin_first': a2c_builtin_first,
